@@ -322,9 +322,12 @@ impl PhoneticSuggestion {
         self.regex_parser.convert_regex_into(word, &mut self.regex);
         let rgx = Regex::new(&self.regex).unwrap();
 
+        // The table is keyed by the lower case letters, a word may start with an upper case one (e.g. `Dhaka`).
+        let first_letter = word.get(0..1).unwrap_or_default().to_ascii_lowercase();
+
         suggestions.extend(
             self.table
-                .get(word.get(0..1).unwrap_or_default())
+                .get(first_letter.as_str())
                 .copied()
                 .unwrap_or_default()
                 .iter()
